@@ -1,5 +1,6 @@
 """C10 — unseen levels and new groups at prediction follow the configured policy; the
 configuration accepts only its documented keys and values."""
+import json
 import warnings
 
 import numpy as np
@@ -18,6 +19,14 @@ ASSUMPTIONS = [
     "to training, shuffled; `co` ordered or not): 'unseen' is decided from the values present in the "
     "rows, so such a frame must behave like the plain-object reference frame (no raise / no warning "
     "when no row is unseen)",
+    "re-evaluations on one design object: the policy verdict of Spec.C10 is a function of (mode, what "
+    "the evaluation returned / raised / warned, the frame, the reference evaluation); an evaluation "
+    "whose observation is identical to one already sent to the driver for the same mode is not sent "
+    "again (it is counted)",
+    "configuration histories run on the process-global formulae.config, starting from the default "
+    "value; the Lean model (Config.set folded over the sequence, Driver op c10_config_seq) keeps the "
+    "previous state on a refused assignment; predictions after an assignment are judged under the "
+    "mode the model says is in force",
     "missing values (None / NaN) in categorical columns of NEW data are not generated: the statement "
     "speaks of levels absent in training and does not settle whether a missing value is one (the "
     "unchanged library treats it as an unseen level: raises in 'error', zero row / appended group "
@@ -112,10 +121,212 @@ def evaluate(obj, nd, mode):
         formulae.config["EVAL_UNSEEN_CATEGORIES"] = old
 
 
+def common_request(dm, nd, rows, ev, refm, rerr):
+    """the part of a c10_spec request that speaks about one evaluation `ev` = (new, err, warn) of
+    the common matrix on `nd` (refm / rerr: the evaluation of the reference frame)"""
+    terms = list(dm.common.terms.values())
+    col_vars = []
+    for t in terms:
+        w = dm.common.slices[t.name].stop - dm.common.slices[t.name].start
+        col_vars += [sorted(t.var_names)] * w
+    cvars = set().union(*[set(t.var_names) for t in terms])
+    row_unseen = [[v for v in rows.get(k, []) if v in cvars] for k in range(len(nd))]
+    new, err, warn = ev
+    return {"ref": None if refm is None else designs.mat(refm.design_matrix),
+            "new": None if new is None else designs.mat(new.design_matrix),
+            "err": err, "warn": warn, "col_vars": col_vars,
+            "row_unseen": row_unseen, "any_unseen": any(row_unseen), "ref_err": rerr}
+
+
+def group_request(dm, nd, rows, ev, refm, rerr):
+    """the same for the group-specific matrix"""
+    from formulae.terms import Intercept
+    terms = list(dm.group.terms.values())
+    gvars = set().union(*[set(t.var_names) for t in terms])
+    any_unseen = any(v in gvars for vs in rows.values() for v in vs)
+    new, err, warn = ev
+    tlist = []
+    for t in terms:
+        fv = set(t.factor.var_names)
+        ev_ = set() if isinstance(t.expr, Intercept) else set(t.expr.var_names)
+        sl = dm.group.slices[t.name]
+        p = (sl.stop - sl.start) // max(1, len(t.groups))
+        tlist.append({
+            "name": t.name, "factor": t.factor.name, "p": p,
+            "row_new": [any(v in fv for v in rows.get(k, [])) for k in range(len(nd))],
+            "row_eff": [any(v in ev_ for v in rows.get(k, [])) for k in range(len(nd))],
+            "ref": None if refm is None else designs.mat(refm[t.name]),
+            "new": None if new is None else designs.mat(new[t.name])})
+    return {
+        "terms": tlist, "err": err, "warn": warn, "any_unseen": any_unseen,
+        "factors_with_new_levels": [] if new is None else list(new.factors_with_new_levels),
+        "slices": [] if new is None else [[k, s.start, s.stop] for k, s in new.slices.items()],
+        "ncols": 0 if new is None else int(new.design_matrix.shape[1]), "ref_err": rerr}
+
+
+PART_REQUEST = {"common": common_request, "group": group_request}
+
+
 def outcome(t):
     new, err, warn = t
     return (err, warn, None if new is None else designs.mat(new.design_matrix),
             None if new is None else list(getattr(new, "factors_with_new_levels", ())))
+
+
+MODE_KEY = "EVAL_UNSEEN_CATEGORIES"
+DOCUMENTED = ("error", "warning", "silent")
+CFG_KEYS = [MODE_KEY, "eval_unseen_categories", "UNKNOWN", ""]
+CFG_VALS = ["error", "warning", "silent", "Error", "ignore", "", "raise", "anything"]
+CONFIG_FORMULAS = ["y ~ f + x + (1 | g)", "y ~ 0 + g:x + (z | h)", "y ~ cu + (x | f)"]
+
+
+def is_documented(key, value):
+    return key == MODE_KEY and value in DOCUMENTED
+
+
+def config_sequences(seed, tier):
+    """sequences of assignments [(style, key, value)]: every documented mode in force followed by
+    every refused (key, value) of the grid in both spellings (exhaustive), and drawn longer
+    sequences mixing accepted and refused assignments"""
+    seqs = []
+    for m in DOCUMENTED:
+        for k in CFG_KEYS:
+            for v in CFG_VALS:
+                if not is_documented(k, v):
+                    for style in ("item", "attr"):
+                        seqs.append([("item", MODE_KEY, m), (style, k, v)])
+    for i in range(80 if tier == "quick" else 3000):
+        r = rng_for(seed, "c10", "config-seq", i)
+        steps = []
+        for _ in range(r.randrange(2, 7)):
+            if r.random() < 0.5:
+                k, v = MODE_KEY, r.choice(DOCUMENTED)
+            else:
+                k, v = r.choice(CFG_KEYS[:2] if r.random() < 0.8 else CFG_KEYS), r.choice(CFG_VALS)
+            steps.append((r.choice(("item", "attr")), k, v))
+        seqs.append(steps)
+    return seqs
+
+
+def config_stage(res, seed, tier, replay=None):
+    """The configuration as a history: after EVERY assignment the value in force is read back and
+    compared with the Lean model of the configuration folded over the same sequence (a refused
+    assignment yields no new state: the previous value stays in force); after every refused
+    assignment, and at the end of every sequence, a design is evaluated on a frame with unseen
+    values without touching the configuration, and that evaluation is judged by Spec.C10 under the
+    mode the MODEL says is in force."""
+    import formulae
+    cfg = formulae.config
+    old = cfg[MODE_KEY] if cfg[MODE_KEY] in DOCUMENTED else "error"
+    # designs to predict with: both parts meet an unseen value
+    preds = []
+    for j, formula in enumerate(CONFIG_FORMULAS):
+        for attempt in range(50):
+            r = rng_for(seed, "c10", "config-design", j, attempt)
+            df = designs.gen_frame(r)
+            obs, req0 = designs.observe(formula, df, designs.NAMES)
+            if req0 is None:
+                continue
+            dm = obs["_dm"]
+            nd, ref, rows, _ = make_new(r, df, set(dm.model.var_names))
+            hit = {v for vs in rows.values() for v in vs}
+            if all(hit & set().union(*[set(t.var_names) for t in getattr(dm, p).terms.values()])
+                   for p in ("common", "group")):
+                break
+        else:
+            continue
+        refs = {p: evaluate(getattr(dm, p), ref, "error")[:2] for p in ("common", "group")}
+        preds.append({"formula": formula, "design": j, "attempt": attempt, "dm": dm, "nd": nd,
+                      "rows": rows, "refs": refs})
+    if replay is not None:
+        seqs = [[tuple(st) for st in replay["config_steps"]]]
+    else:
+        seqs = config_sequences(seed, tier)
+    runs = []
+    try:
+        for si, steps in enumerate(seqs):
+            cfg[MODE_KEY] = "error"                       # a history starts from the default
+            pr = preds[(replay or {}).get("design", si) % len(preds)] if preds else None
+            ios, evs = [], []
+            for i, (style, k, v) in enumerate(steps):
+                before = cfg[MODE_KEY]
+                try:
+                    if style == "item":
+                        cfg[k] = v
+                    else:
+                        setattr(cfg, k, v)
+                    io = {"ok": True}
+                except Exception as e:  # noqa
+                    io = {"err": type(e).__name__}
+                io["value"] = cfg[MODE_KEY]
+                io["value_attr"] = getattr(cfg, MODE_KEY)
+                io["before"] = before
+                ios.append(io)
+                if pr is not None and ("err" in io or i == len(steps) - 1):
+                    for part in ("common", "group"):
+                        obj = getattr(pr["dm"], part)
+                        try:
+                            with warnings.catch_warnings(record=True) as w:
+                                warnings.simplefilter("always")
+                                new = obj.evaluate_new_data(pr["nd"].copy(deep=True))
+                            ev = (new, None, designs.formulae_warned(w))
+                        except Exception as e:  # noqa
+                            ev = (None, type(e).__name__, False)
+                        evs.append((i, part, ev))
+            runs.append((steps, pr, ios, evs))
+    finally:
+        cfg[MODE_KEY] = old
+    model = ask([{"op": "c10_config_seq", "steps": [[k, v] for _, k, v in steps]}
+                 for steps, _, _, _ in runs])
+    sreqs, sowners = [], []
+    for (steps, pr, ios, evs), mo in zip(runs, model):
+        res.evaluations += 1
+        res.count("configuration sequences")
+        for i, ((style, k, v), io, ms) in enumerate(zip(steps, ios, mo["steps"])):
+            res.traces += 1
+            case = {"config_steps": [list(st) for st in steps[:i + 1]], "start": "error (default)"}
+            impl = {kk: io[kk] for kk in ("ok", "err", "value") if kk in io}
+            if impl != ms:
+                res.mismatches.append({"case": case, "impl": impl, "model": ms})
+            why = None
+            if is_documented(k, v) != ("ok" in io):
+                why = "configuration accepts / refuses an undocumented / documented key or value"
+            elif "err" in io and (io["value"] != io["before"] or io["value_attr"] != io["before"]):
+                why = (f"a REFUSED assignment changed the value in force from {io['before']!r} to "
+                       f"{io['value']!r}")
+                res.count("refused assignments that changed the configuration")
+            elif io["value"] not in DOCUMENTED or io["value_attr"] != io["value"]:
+                why = "the configuration holds an undocumented value"
+            elif "ok" in io and io["value"] != v:
+                why = "an accepted assignment is not the value in force afterwards"
+            if "err" in io:
+                res.count("refused assignments read back")
+            if why:
+                res.failures.append({"case": case, "impl": impl, "finding": None,
+                                     "expected": {"value in force": io["before"] if "err" in io else v,
+                                                  "model": ms}, "why": why})
+        for i, part, ev in evs:
+            mode = mo["steps"][i]["value"]
+            rq = {"op": "c10_spec", "mode": mode,
+                  part: PART_REQUEST[part](pr["dm"], pr["nd"], pr["rows"], ev, *pr["refs"][part])}
+            sreqs.append(rq)
+            sowners.append(({"config_steps": [list(st) for st in steps[:i + 1]],
+                             "start": "error (default)", "design": pr["design"],
+                             "formula": pr["formula"], "part": part, "mode_in_force": mode,
+                             "unseen": {str(a): b for a, b in pr["rows"].items()}}, part, ev))
+            if "err" in ios[i]:
+                res.count("predictions after a refused assignment")
+            res.nontrivial.add(("config", tuple(steps[:i + 1]), part))
+    for (case, part, ev), rq, sp in zip(sowners, sreqs, ask(sreqs)):
+        v = sp.get(part) or {}
+        bad = [k for k, ok in v.items() if k.endswith("_ok") and not ok]
+        if bad:
+            res.failures.append({
+                "case": case, "impl": {"part": part, "err": ev[1], "warn": ev[2]},
+                "expected": f"behaviour of mode '{case['mode_in_force']}' (the last ACCEPTED assignment)",
+                "finding": None,
+                "why": f"{part} after a sequence of configuration assignments: "
+                       + ", ".join(b[:-3] for b in bad) + " violated"})
 
 
 def explore(tier, seed, res=None, replay=None):
@@ -125,11 +336,17 @@ def explore(tier, seed, res=None, replay=None):
     res.rule = ("generated designs x placements of unseen values in predictor / effect / grouping "
                 "variables (incl. one factor of an interaction), new columns of object dtype or of category "
                 "dtype declaring unused categories, x 3 modes set through a sequence of "
-                "config changes, the same frame object evaluated again in the opposite order of "
-                "modes and after an in-place edit; non-trivial = a case with at least one unseen value; distinct by "
+                "config changes, the same frame object (and equal copies of it) evaluated again in the "
+                "opposite order of modes and in a drawn order with 'warning' repeated, every such "
+                "evaluation judged by Spec.C10 itself, and after an in-place edit; the configuration as "
+                "a history of accepted and refused assignments (value in force read back after every "
+                "step, prediction after every refused one); non-trivial = a case with at least one unseen value; distinct by "
                 "(formula, placement, mode)")
     n_cases = 300 if tier == "quick" else 8000
     cases = []
+    if replay is not None and "config_steps" in replay:
+        config_stage(res, seed, tier, replay)
+        return res
     if replay is not None:
         cases = [(replay["formula"], replay.get("seed_path", 0))]
     else:
@@ -142,7 +359,11 @@ def explore(tier, seed, res=None, replay=None):
     for f, path in cases:
         r = rng_for(seed, "c10", path)
         df = designs.gen_frame(r)
-        formula = f or gen_formula(r)
+        # (a replay of a generated case is given its formula: the generator is still run, so that the
+        # draws that follow -- the new frame, the unseen values -- are those of the original run)
+        generated = gen_formula(r) if (f is None or (replay is not None and path >= len(CORPUS))) \
+            else None
+        formula = f or generated
         res.evaluations += 1
         obs, req0 = designs.observe(formula, df, designs.NAMES)
         if req0 is None:
@@ -157,6 +378,10 @@ def explore(tier, seed, res=None, replay=None):
         if req_m is not None:
             model_reqs.append(req_m)
             model_owners.append(({"formula": formula, "seed_path": path}, obs_m))
+        refs = {}         # part -> (evaluation of the reference frame, its error class)
+        # what Spec.C10 is already asked about: (part, mode, everything the predicate sees); a later
+        # evaluation with the very same observation has the same verdict and is not sent again
+        judged = set()
         for mode in ("error", "warning", "silent"):
             case = {"formula": formula, "seed_path": path, "mode": mode,
                     "unseen": {str(k): v for k, v in rows.items()}}
@@ -165,44 +390,14 @@ def explore(tier, seed, res=None, replay=None):
                 res.count("evaluations_on_frames_declaring_unused_categories"
                           + ("" if rows else "_and_no_unseen_row"))
             req = {"op": "c10_spec", "mode": mode}
-            if dm.common is not None:
-                terms = list(dm.common.terms.values())
-                col_vars = []
-                for t in terms:
-                    w = dm.common.slices[t.name].stop - dm.common.slices[t.name].start
-                    col_vars += [sorted(t.var_names)] * w
-                cvars = set().union(*[set(t.var_names) for t in terms])
-                row_unseen = [[v for v in rows.get(k, []) if v in cvars] for k in range(len(nd))]
-                new, err, warn = evaluate(dm.common, nd, mode)
-                refm, rerr, _ = evaluate(dm.common, ref, "error")
-                req["common"] = {"ref": None if refm is None else designs.mat(refm.design_matrix),
-                                 "new": None if new is None else designs.mat(new.design_matrix),
-                                 "err": err, "warn": warn, "col_vars": col_vars,
-                                 "row_unseen": row_unseen, "any_unseen": any(row_unseen),
-                                 "ref_err": rerr}
-            if dm.group is not None:
-                terms = list(dm.group.terms.values())
-                gvars = set().union(*[set(t.var_names) for t in terms])
-                any_unseen = any(v in gvars for vs in rows.values() for v in vs)
-                new, err, warn = evaluate(dm.group, nd, mode)
-                refm, rerr, _ = evaluate(dm.group, ref, "error")
-                tlist = []
-                for t in terms:
-                    fv = set(t.factor.var_names)
-                    ev = set() if isinstance(t.expr, Intercept) else set(t.expr.var_names)
-                    sl = dm.group.slices[t.name]
-                    p = (sl.stop - sl.start) // max(1, len(t.groups))
-                    tlist.append({
-                        "name": t.name, "factor": t.factor.name, "p": p,
-                        "row_new": [any(v in fv for v in rows.get(k, [])) for k in range(len(nd))],
-                        "row_eff": [any(v in ev for v in rows.get(k, [])) for k in range(len(nd))],
-                        "ref": None if refm is None else designs.mat(refm[t.name]),
-                        "new": None if new is None else designs.mat(new[t.name])})
-                req["group"] = {
-                    "terms": tlist, "err": err, "warn": warn, "any_unseen": any_unseen,
-                    "factors_with_new_levels": [] if new is None else list(new.factors_with_new_levels),
-                    "slices": [] if new is None else [[k, s.start, s.stop] for k, s in new.slices.items()],
-                    "ncols": 0 if new is None else int(new.design_matrix.shape[1]), "ref_err": rerr}
+            for part in ("common", "group"):
+                obj = getattr(dm, part)
+                if obj is None:
+                    continue
+                ev = evaluate(obj, nd, mode)
+                refs[part] = evaluate(obj, ref, "error")[:2]
+                req[part] = PART_REQUEST[part](dm, nd, rows, ev, *refs[part])
+                judged.add((part, mode, json.dumps(req[part], sort_keys=True)))
             reqs.append(req)
             owners.append(case)
             if rows:
@@ -213,8 +408,43 @@ def explore(tier, seed, res=None, replay=None):
             obj = getattr(dm, part)
             if obj is None:
                 continue
-            first = {m: outcome(evaluate(obj, nd, m)) for m in ("error", "warning", "silent")}
-            again = {m: outcome(evaluate(obj, nd, m)) for m in ("silent", "warning", "error")}
+            # every one of these evaluations is judged by the policy itself (Spec.C10 through the
+            # driver: raise / warn iff an unseen value occurs, zero rule, new-group rule), not only
+            # by equality with an earlier pass: position k of the history of THIS design object
+            #   0-2  error, warning, silent on the frame object (after the three evaluations above)
+            #   3-5  silent, warning, error on the same object
+            #   6-.. a drawn sequence of modes with 'warning' at least twice in a row, on the same
+            #        object and on equal but distinct copies of it
+            history = [(m, "same object") for m in ("error", "warning", "silent", "silent", "warning",
+                                                    "error")]
+            rh = rng_for(seed, "c10", path, part, "repeat")
+            tail = [rh.choice(("error", "warning", "silent")) for _ in range(rh.randrange(1, 4))]
+            k = rh.randrange(len(tail) + 1)
+            tail[k:k] = ["warning", "warning"]
+            history += [(m, rh.choice(("same object", "equal copy"))) for m in tail]
+            done = []
+            for k, (m, which) in enumerate(history):
+                frame = nd if which == "same object" else nd.copy(deep=True)
+                ev = evaluate(obj, frame, m)
+                done.append(outcome(ev))
+                rq = {"op": "c10_spec", "mode": m,
+                      part: PART_REQUEST[part](dm, nd, rows, ev, *refs[part])}
+                res.count("re-evaluations judged by the policy")
+                if m == "warning" and any(a == "warning" for a, _ in history[:k]) and rows:
+                    res.count("repeated 'warning' evaluations of a frame with unseen values")
+                key = (part, m, json.dumps(rq[part], sort_keys=True))
+                if key in judged:
+                    res.count("re-evaluations whose observation equals one already sent to the driver")
+                    continue
+                judged.add(key)
+                reqs.append(rq)
+                owners.append({"formula": formula, "seed_path": path, "mode": m, "part": part,
+                               "unseen": {str(i): v for i, v in rows.items()},
+                               "history": "error, warning, silent, then "
+                                          + ", ".join(f"{a} ({b})" for a, b in history[:k + 1]),
+                               "position": k})
+            first = dict(zip(("error", "warning", "silent"), done[0:3]))
+            again = dict(zip(("silent", "warning", "error"), done[3:6]))
             res.count("re-evaluations")
             for m in first:
                 if first[m] != again[m]:
@@ -225,6 +455,10 @@ def explore(tier, seed, res=None, replay=None):
                         "expected": "the same outcome", "finding": None,
                         "why": f"{part}: evaluating the same new frame again under '{m}' after other "
                                "modes gives another outcome (policy not applied at every evaluation)"})
+        for part in ("common", "group"):
+            obj = getattr(dm, part)
+            if obj is None:
+                continue
             edited = nd                                   # the same object, edited in place
             for v in used & set(nd.columns):
                 edited[v] = list(reversed(edited[v].tolist()))
@@ -290,6 +524,7 @@ def explore(tier, seed, res=None, replay=None):
                                  "expected": "accepted" if documented else "refused",
                                  "why": "configuration accepts / refuses an undocumented / documented "
                                         "key or value"})
+    config_stage(res, seed, tier)
     default = type(formulae.config)()["EVAL_UNSEEN_CATEGORIES"]
     if default != "error":
         res.failures.append({"case": {"config": "default"}, "impl": default, "expected": "error",
